@@ -2,7 +2,7 @@ from functools import wraps
 from typing import Type
 
 from typedpy.commons import Constant, first_in, Undefined, UndefinedMeta
-from typedpy.fields import Boolean, FunctionCall, Number, String, Array, AnyOf, OneOf
+from typedpy.fields import Boolean, FunctionCall, Number, String, Array, AnyOf, OneOf, SerializableField
 from typedpy.structures import ClassReference, Field, NoneField, Structure
 from typedpy.structures.structures import (
     created_fast_serializer,
@@ -109,7 +109,10 @@ def create_serializer(
     for field_name, field in field_by_name.items():
         mapped_key = mapper[field_name]
         if mapped_key.__class__ is str:
-            if isinstance(field, (Number, String, Boolean)):
+            if isinstance(field, (Number, String, Boolean)) and not isinstance(
+                field, SerializableField
+            ):
+                # (a SerializableField such as DecimalNumber converts its value: through its serialize())
                 processed_mapper[mapped_key] = _get_value(field, cls)
             else:
                 processed_mapper[mapped_key] = (
